@@ -124,6 +124,10 @@ def random_spec(rng, quick, trial_flip=False, odd_options=False):
         else:
             o["report_timestep"] = 3 * hyd
     spec = add_controls(rng, spec, trial_flip=trial_flip)
+    r = rng.random()
+    if r < 0.35:  # report_start > 0: on the hydraulic grid, off it, exactly the duration, beyond the duration (empty tables)
+        d = o["duration"]
+        spec["c16_report_start"] = rng.choice([hyd, hyd * rng.randint(1, 3), hyd // 2, hyd + 7, d, d + hyd, d + 1, 2 * d + 5])
     if not odd_options and o["duration"] >= hyd and rng.random() < 0.3:
         # a continued run; `c16_restart == duration` = the model was already simulated to the end (run_sim must be a no-op)
         spec["c16_restart"] = hyd * rng.randint(1, o["duration"] // hyd) if rng.random() < 0.8 else o["duration"]
@@ -136,6 +140,8 @@ def build(wntr, spec):
                                        TankLevelCondition, ValueCondition, AndCondition)
 
     wn = gen_networks.build_wn(wntr, spec)
+    if "c16_report_start" in spec:
+        wn.options.time.report_start = spec["c16_report_start"]
     if "c16_rule_timestep" in spec:
         wn.options.time.rule_timestep = spec["c16_rule_timestep"]
     for i, c in enumerate(spec.get("c16_controls", [])):
@@ -317,6 +323,7 @@ def observe_run(spec, plan=None, backup=None, conv_err=False, max_calls=None, ke
     obs["hyd"] = sim._hydraulic_timestep
     obs["report"] = sim._report_timestep
     obs["duration"] = wn.options.time.duration
+    obs["report_start"] = wn.options.time.report_start
     obs["trials"] = wn.options.hydraulic.trials
     obs["backup"] = backup
     obs["conv_err"] = bool(conv_err)
@@ -391,9 +398,9 @@ def model_line(obs, cap=10 ** 15):
     rep = 0 if isinstance(rep, str) else int(rep)
     pres = ",".join(str(int(p[3])) for p in obs["pres"]) or "-"
     t0, p0 = obs["t0"]
-    return "run %d %d %d %d %d %d %d %d %d %s %s %s" % (
+    return "run %d %d %d %d %d %d %d %d %d %d %s %s %s" % (
         int(obs["hyd"]), rep, int(obs["duration"]), int(obs["trials"]), 1 if obs["backup"] else 0, 1 if obs["conv_err"] else 0,
-        int(t0), int(p0) if (t0 != 0 and p0 is not None) else 0, cap, pres, "".join(obs["outs"]) or "-",
+        int(t0), int(p0) if (t0 != 0 and p0 is not None) else 0, cap, int(obs["report_start"]), pres, "".join(obs["outs"]) or "-",
         "".join("1" if b else "0" for b in obs["posts"]) or "-")
 
 
@@ -439,6 +446,7 @@ _ACTS = {
     "results.time.append(int(self._wn.sim_time))": "appendTime",
     "wntr.sim.hydraulics.update_network_previous_values(self._wn)": "updatePrev",
     "first_step = False": "clearFirst",
+    "report_start = self._wn.options.time.report_start": "readReportStart",
 }
 _ADVANCE = ["self._wn.sim_time += self._hydraulic_timestep",
             "overstep = float(self._wn.sim_time) % self._hydraulic_timestep",
@@ -455,7 +463,7 @@ _CONDS = {
     "trial > max_trials": "trialGtMax",
     "isinstance(self._report_timestep, (float, int))": "reportNumeric",
     "self._report_timestep.upper() == 'ALL'": "reportAll",
-    "self._wn.sim_time % self._report_timestep == 0": "onGrid",
+    "self._wn.sim_time >= report_start and (self._wn.sim_time - report_start) % self._report_timestep == 0": "onGrid",
     "len(results.time) > 0 and int(self._wn.sim_time) == results.time[-1]": "alreadySolved",
     "int(self._wn.sim_time) != self._wn.sim_time": "nonIntegral",
     "self._wn.sim_time > self._wn.options.time.duration": "pastDuration",
@@ -646,11 +654,12 @@ def judge(case, obs, ref):
     if isinstance(rep, str):
         want = [int(t) for t in acc]
     else:
-        want = [int(t) for t in acc if t % rep == 0]
+        rs = obs["report_start"]  # the report grid is report_start + k * report_timestep, k >= 0
+        want = [int(t) for t in acc if t >= rs and (t - rs) % rep == 0]
     if any(b <= a for a, b in zip(times, times[1:])):
         out.append(("index-not-increasing", "results.time is not strictly increasing: %s" % times))
     elif times != want:
-        out.append(("index-off-grid", "reported times %s, solved steps on the report grid %s (report_timestep %s)" % (times, want, rep)))
+        out.append(("index-off-grid", "reported times %s, solved steps on the report grid %s (report_timestep %s, report_start %s)" % (times, want, rep, obs["report_start"])))
     if "node" in obs:
         for fam, keys, names in (("node", NODE_KEYS, obs["node_names"]), ("link", LINK_KEYS, obs["link_names"])):
             tabs = obs[fam]
@@ -689,6 +698,60 @@ def judge(case, obs, ref):
                     if (k == "status" and not np.array_equal(a, b)) or not dev <= 1e-6:
                         out.append(("prefix-values", "%s[%s] rows reported before the failure differ from the reference run (max rel. deviation %.3g)" % (fam, k, dev)))
                         break
+    return out
+
+
+# ----------------------------------------------------------------------------- EpanetSimulator: a run that did solve must not say it failed
+
+
+def epanet_run(spec, report_start, conv_err):
+    """EpanetSimulator.run_sim on a fresh model -> (status, n_rows, detail); status in clean | flagged | raised | other"""
+    wntr = vlib.import_wntr()
+    wn = gen_networks.build_wn(wntr, spec)
+    wn.options.time.report_start = report_start
+    d = os.path.join(vlib.BUILD, "c16_epanet")
+    os.makedirs(d, exist_ok=True)
+    prefix = os.path.join(d, "run%d" % os.getpid())
+    with warnings.catch_warnings(record=True) as ws, _quiet_fds():
+        warnings.simplefilter("always")
+        try:
+            r = wntr.sim.EpanetSimulator(wn).run_sim(file_prefix=prefix, convergence_error=conv_err)
+        except RuntimeError as e:
+            return ("raised" if "did not converge" in str(e) else "other"), 0, str(e)[:200]
+        except Exception as e:  # noqa
+            return "other", 0, "%s: %s" % (type(e).__name__, str(e)[:200])
+        finally:
+            for ext in (".inp", ".rpt", ".bin", ".hyd"):
+                try:
+                    os.remove(prefix + ext)
+                except OSError:
+                    pass
+    msgs = [str(w.message) for w in ws if "did not converge" in str(w.message)]
+    n = len(r.node["head"].index)
+    if r.error_code is not None or msgs:
+        return "flagged", n, "error_code=%s warnings=%s index=%s" % (r.error_code, msgs[:1], list(r.node["head"].index)[-2:])
+    return "clean", n, ""
+
+
+def epanet_oracle(ctx, specs_starts):
+    """same hydraulics, only the report window differs: when the run with report_start = 0 is clean, the run with
+    report_start > 0 must be clean as well (no 'did not converge' warning / error_code / RuntimeError)"""
+    out = []
+    for spec, rs in specs_starts:
+        base, nb, _ = epanet_run(spec, 0, False)
+        if base != "clean":
+            ctx.count("epanet:baseline_" + base)
+            continue
+        for ce in (False, True):
+            st, n, detail = epanet_run(spec, rs, ce)
+            o = spec["options"]
+            ctx.case(("epanet", json.dumps(gen_networks.spec_signature(spec), default=str), rs, ce), nontrivial=rs > 0)
+            ctx.count("epanet:" + st)
+            if st in ("flagged", "raised"):
+                out.append(Failure("epanet-complete-run-flagged",
+                                   "EpanetSimulator reports a failed step on a run that solved every step (report_start=%s, duration=%s, "
+                                   "report_timestep=%s, convergence_error=%s): %s" % (rs, o["duration"], o["report_timestep"], ce, detail),
+                                   {"engine": "epanet", "spec": spec, "report_start": rs, "conv_err": ce, "observed": detail}))
     return out
 
 
@@ -813,7 +876,8 @@ class C16(Check):
                         ref = None  # the reference run of a trial overflow is the same run: nothing to compare
                 verdicts = judge(case, obs, ref)
                 sig = (json.dumps(gen_networks.spec_signature(spec), default=str), json.dumps(spec.get("c16_controls", []), sort_keys=True),
-                       json.dumps(sorted(case["plan"].items())), case["backup"], case["conv_err"])
+                       json.dumps(sorted(case["plan"].items())), case["backup"], case["conv_err"],
+                       spec.get("c16_report_start"), spec.get("c16_restart"))
                 partial = any(p[3] != p[0] for p in obs["pres"])
                 resolves = any(obs["posts"])
                 nontriv = len(obs["outs"]) >= 2 and (bool(obs["kinds_hit"]) or partial or resolves)
@@ -836,6 +900,9 @@ class C16(Check):
                         ctx.count("continued_completed_noop")
                     elif obs["kinds_hit"]:
                         ctx.count("continued_with_fault_hit")
+                if obs["report_start"] > 0:
+                    ctx.count("report_start:" + ("beyond_duration" if obs["report_start"] > obs["duration"] else
+                                                 "on_hyd_grid" if obs["report_start"] % obs["hyd"] == 0 else "off_hyd_grid"))
                 if isinstance(obs["report"], str):
                     ctx.count("report:ALL")
                 elif obs["report"] != obs["hyd"]:
@@ -904,6 +971,8 @@ class C16(Check):
         groups = []
         # corpus first
         for fn, item in vlib.corpus_items("C16"):
+            if item.get("engine") == "epanet":
+                continue
             spec = item["spec"]
             clean = observe_run(spec, None, None, False, max_calls=self.bound(spec))
             case = {"spec": spec, "plan": item.get("plan", {}), "backup": item.get("backup"), "conv_err": item.get("conv_err", False),
@@ -923,9 +992,21 @@ class C16(Check):
         for i in range(5 if ctx.quick else 25):
             spec = random_spec(rng, ctx.quick, odd_options=True)
             groups.append(self.cases_for(ctx, spec, exhaustive=False))
-        r = self.run_cases(ctx, groups)
+        fs, bs = self.run_cases(ctx, groups)
         ctx.cov["prefix_max_rel_deviation"] = PREFIX_DEV[0]
-        return r
+        # EpanetSimulator with a report window that does not start at 0
+        es = []
+        for fn, item in vlib.corpus_items("C16"):
+            if item.get("engine") == "epanet":
+                es.append((item["spec"], item["report_start"]))
+        for i in range(3 if ctx.quick else 12):
+            spec = gen_networks.random_network(rng, quick=True, force={"n_nodes": rng.choice([2, 3, 4, 6])})
+            o = spec["options"]
+            o["report_timestep"] = o["hydraulic_timestep"] * rng.choice([1, 1, 2]) if isinstance(o["report_timestep"], str) else o["report_timestep"]
+            hyd, rep = o["hydraulic_timestep"], o["report_timestep"]
+            es.append((spec, rng.choice([hyd // 2, rep // 2, rep, hyd + 7, rep + hyd // 3, o["duration"] - 1])))
+        fs += epanet_oracle(ctx, es)
+        return fs, bs
 
     def search(self, ctx, broken):
         """wider failing-input search with the same oracle (more specs, every k, all kinds)"""
@@ -940,6 +1021,12 @@ class C16(Check):
     def replay(self, ctx, path):
         r = json.load(open(path if os.path.isabs(path) else os.path.join(vlib.VERIF, path)))
         rp = r.get("replay", r)
+        if rp.get("engine") == "epanet":
+            fs = epanet_oracle(ctx, [(rp["spec"], rp["report_start"])])
+            for f in fs:
+                print("  oracle: %s: %s" % (f.key, f.what[:300]))
+            print("replay: %s" % ("REPRODUCED " + fs[0].what[:300] if fs else "not reproduced on the current tree"))
+            return 1 if fs else 0
         spec = rp["spec"]
         clean = observe_run(spec, None, None, False, max_calls=self.bound(spec))
         case = {"spec": spec, "plan": rp.get("plan", {}), "backup": rp.get("backup"), "conv_err": rp.get("conv_err", False),
